@@ -146,6 +146,15 @@ check("C15", "TLC model checking of Async.tla on the plan of a whole validation 
       "specification's only if each evaluator saw its own element's input; the final result must equal the no-yield result and each element's "
       "entry its stand-alone validation. The shared-context sensitivity configuration must violate OwnContext.", ASYNC_NOTE, "DESIGN.md 3.9, 4.3, 5/C15")
 
+check("C10", "TLC model checking of the substitution lemma on Resolve.tla (textual bracketed substitution = splicing parsed sub-trees) + replay of every "
+      "enumerated expression through the real resolver, expand_packages and expand_time_conditions",
+      "TLC proves for every well-formed expression up to 5 (thorough 6) tokens over keys, two packages and time conditions, under four package tables, "
+      "that parsing the textually substituted expression gives the tree obtained by splicing the parsed package / time-condition trees at the "
+      "leaves (one level, also for each step alone); every such expression is resolved by the real code (also inside AHB expressions, packages "
+      "with and without repeatability) and compared with the spec's tree, with the real parse of the substituted text, step by step; unknown "
+      "packages must abort with NotImplementedError. Completion orders of the resolver awaitables are covered by C12.",
+      "Trusted: TLC, renderer, n-ary normalisation with bracket spans of the substituted token sequence.", "DESIGN.md 3.7, 5/C10")
+
 NOT_BUILT = "check under construction in this session (specification module planned in DESIGN.md section 3); not claimed yet"
 
 
